@@ -1,0 +1,12 @@
+//go:build verif
+
+package ecdsa
+
+import (
+	"crypto/elliptic"
+	"math/big"
+)
+
+// Thin exported alias for the verification harness under /verif. Compiled only with -tags verif.
+
+func VerifHashToInt(hash []byte) *big.Int { return hashToInt(hash, elliptic.P256()) }
